@@ -137,6 +137,42 @@ func checkC18(r *core.Run) {
 				collector = g
 				rest := strings.SplitN(o, "param:"+stmtParam.Name()+".", 2)[1]
 				clauses[strings.FieldsFunc(rest, func(c rune) bool { return c == '.' || c == ')' || c == '[' })[0]] = true
+				continue
+			}
+			// the nodes may be listed by a helper of the package that is handed the statement
+			// (`for _, node := range selectArgNodes(stmt) { collect(node, ..) }`): what it appends to its list
+			for _, cs2 := range w.Calls(argSel) {
+				h := w.Info(cs2.Static)
+				if h == nil || h.Pkg != argSel.Pkg || h == argSel || h == g || h.Decl.Body == nil || !strings.Contains(o, "call:"+core.ShortKey(h.Obj)+"(") {
+					continue
+				}
+				var hp types.Object
+				for i, a := range cs2.Call.Args {
+					if isObj(argSel.Pkg.TypesInfo, a, stmtParam) && i < len(paramObjs(h)) {
+						hp = paramObjs(h)[i]
+					}
+				}
+				if hp == nil {
+					continue
+				}
+				ast.Inspect(h.Decl.Body, func(n ast.Node) bool {
+					c, ok := n.(*ast.CallExpr)
+					if !ok || len(c.Args) < 2 {
+						return true
+					}
+					if id, ok := ast.Unparen(c.Fun).(*ast.Ident); !ok || id.Name != "append" {
+						return true
+					}
+					for _, a := range c.Args[1:] {
+						ho := origin(h, a, 4)
+						if strings.Contains(ho, "param:"+hp.Name()+".") {
+							collector = g
+							rest := strings.SplitN(ho, "param:"+hp.Name()+".", 2)[1]
+							clauses[strings.FieldsFunc(rest, func(c rune) bool { return c == '.' || c == ')' || c == '[' })[0]] = true
+						}
+					}
+					return true
+				})
 			}
 		}
 		_ = info
